@@ -161,11 +161,13 @@ def check(repo, run, tier):
     g(unitrules.filter_nodes_table, repo, run, 'C02.R3b')
     g(mr.leaf_winner_table, repo, run, 'C02.R4')
     g(r5, repo, run)
+    g(unitrules.list_prefilter_guard, repo, run, 'C02.R3')
     g.done()
 
 
 def mutants(repo):
     return [
+        Mutant('prefilter-guard-negated', lambda r: in_func(r, 'ConfigList.ayns.on_merge_impl', "if isinstance(other, ComposedNode):", "if not isinstance(other, ComposedNode):"), ['C02.R3']),
         Mutant('fold-skips-second-stage', lambda r: in_func(r, 'Builder.flatten', "range(1, len(self.stages))", "range(2, len(self.stages))"), ['C02.R1']),
         Mutant('fold-receiver-swapped', lambda r: in_func(r, 'Builder.flatten', "root = root.ayns.merge(self.stages[i])", "root = self.stages[i].ayns.merge(root)"), ['C02.R1']),
         Mutant('fold-reversed', lambda r: in_func(r, 'Builder.flatten', "for i in range(1, len(self.stages)):", "for i in reversed(range(1, len(self.stages))):"), ['C02.R1']),
